@@ -53,6 +53,22 @@ class SymClock:
         def total_seconds(self):
             return self.d
 
+        # the fields of a datetime.timedelta (runs shorter than a day)
+        @property
+        def days(self):
+            return 0
+
+        @property
+        def seconds(self):
+            import z3 as _z3
+            return S.SymInt(_z3.ToInt(S.term_of(self.d)))
+
+        @property
+        def microseconds(self):
+            import z3 as _z3
+            t = S.term_of(self.d)
+            return S.SymInt(_z3.ToInt((t - _z3.ToReal(_z3.ToInt(t))) * 1000000))
+
     def __init__(self):
         self.last = None
         self.instants = []
